@@ -14,6 +14,45 @@ pub struct Outcome {
     pub artifacts: Vec<PathBuf>,
     pub report: String,
     pub timed_out: bool,
+    /// libFuzzer "slow unit" notes (not failures; removed)
+    pub slow_units: u64,
+    /// per-unit time limit hit during the campaign but the input runs fine on its own (machine load; removed)
+    pub timeouts_not_reproduced: u64,
+    /// out-of-memory reports (inconclusive, never a violation)
+    pub oom: u64,
+}
+
+/// Sort the files the fuzzer wrote since `since` into failures and notes.  A slow-unit file is a convenience
+/// note of libFuzzer; a timeout file counts only if the input, run alone, fails or exceeds the limit again; an
+/// out-of-memory file is inconclusive.  Returns the artifacts that remain failures.
+fn triage(bin: &str, prefix: &str, since: std::time::SystemTime, allow_data: bool, o: &mut Outcome) -> Vec<PathBuf> {
+    let mut real = vec![];
+    for a in artifacts_with_prefix(prefix) {
+        let fresh = std::fs::metadata(&a).and_then(|m| m.modified()).map(|m| m >= since).unwrap_or(false);
+        let name = a.file_name().map(|n| n.to_string_lossy().to_string()).unwrap_or_default();
+        let kind = name.strip_prefix(Path::new(prefix).file_name().map(|s| s.to_string_lossy().to_string()).unwrap_or_default().as_str()).unwrap_or(&name).to_string();
+        if !fresh {
+            real.push(a);
+            continue;
+        }
+        if kind.starts_with("slow-unit-") {
+            let _ = std::fs::remove_file(&a);
+            o.slow_units += 1;
+        } else if kind.starts_with("timeout-") {
+            let (ok, _) = run_one(bin, &a, allow_data);
+            if ok {
+                let _ = std::fs::remove_file(&a);
+                o.timeouts_not_reproduced += 1;
+            } else {
+                real.push(a);
+            }
+        } else if kind.starts_with("oom-") {
+            o.oom += 1;
+        } else {
+            real.push(a);
+        }
+    }
+    real
 }
 
 fn artifacts_with_prefix(prefix: &str) -> Vec<PathBuf> {
@@ -51,6 +90,7 @@ pub fn run_dirs_once(bin: &str, dirs: &[(PathBuf, bool)], artifact_prefix: &str,
                 .arg("-runs=0")
                 .arg("-rss_limit_mb=4096")
                 .arg("-timeout=60")
+                .arg("-report_slow_units=3600")
                 .arg(format!("-artifact_prefix={artifact_prefix}"))
                 .env("VERIF_FUZZ_XDG", &xdg)
                 .env("VERIF_FUZZ_DATA", if *allow_data { "allow" } else { "never" })
@@ -82,6 +122,7 @@ pub fn run_dirs_once(bin: &str, dirs: &[(PathBuf, bool)], artifact_prefix: &str,
 
 /// Coverage-guided campaign: `jobs` independent libFuzzer processes, `runs` executions each.
 pub fn campaign(bin: &str, corpus: &Path, runs: u64, jobs: usize, seed: u64, max_len: usize, artifact_prefix: &str, xdg_root: &Path, allow_data: bool) -> Outcome {
+    let started = std::time::SystemTime::now() - std::time::Duration::from_secs(2);
     let results: Vec<(bool, String)> = (0..jobs)
         .into_par_iter()
         .map(|j| {
@@ -98,6 +139,7 @@ pub fn campaign(bin: &str, corpus: &Path, runs: u64, jobs: usize, seed: u64, max
                 .arg("-len_control=0")
                 .arg("-rss_limit_mb=4096")
                 .arg("-timeout=60")
+                .arg("-report_slow_units=3600")
                 .arg("-print_final_stats=1")
                 .arg(format!("-artifact_prefix={artifact_prefix}"))
                 .env("VERIF_FUZZ_XDG", &xdg)
@@ -109,7 +151,9 @@ pub fn campaign(bin: &str, corpus: &Path, runs: u64, jobs: usize, seed: u64, max
             match out {
                 Ok(o) => {
                     let text = format!("{}{}", String::from_utf8_lossy(&o.stdout), String::from_utf8_lossy(&o.stderr));
-                    (o.status.success(), if o.status.success() { String::new() } else { interesting(&text) })
+                    // a job stopped by the per-unit time limit or the memory limit alone is judged by triage()
+                    let only_limit = !o.status.success() && (text.contains("ERROR: libFuzzer: timeout") || text.contains("ERROR: libFuzzer: out-of-memory")) && !text.contains("deadly signal") && !text.contains("panicked");
+                    (o.status.success() || only_limit, if o.status.success() { String::new() } else { interesting(&text) })
                 }
                 Err(e) => (false, format!("cannot run {bin}: {e}")),
             }
@@ -123,15 +167,20 @@ pub fn campaign(bin: &str, corpus: &Path, runs: u64, jobs: usize, seed: u64, max
             o.report.push('\n');
         }
     }
-    o.artifacts = artifacts_with_prefix(artifact_prefix);
+    o.artifacts = triage(bin, artifact_prefix, started, allow_data, &mut o);
     o
 }
 
 /// Run one saved input; returns (ok, report).
 pub fn run_one(bin: &str, file: &Path, allow_data: bool) -> (bool, String) {
     let xdg = crate::driver::scratch_root().join("fz-one");
+    let scratch = crate::driver::scratch_root().join("fz-one-artifacts");
+    let _ = std::fs::create_dir_all(&scratch);
     let out = Command::new(bin)
         .arg(file)
+        .arg("-timeout=180")
+        .arg("-report_slow_units=3600")
+        .arg(format!("-artifact_prefix={}/", scratch.display()))
         .env("VERIF_FUZZ_XDG", &xdg)
         .env("VERIF_FUZZ_DATA", if allow_data { "allow" } else { "never" })
         .env("ASAN_OPTIONS", "detect_leaks=1:abort_on_error=0:symbolize=1")
